@@ -19,7 +19,7 @@ from crosshair.tracers import NoTracing
 from vp import kit, kitpaths
 from vp.ob import ob, product
 
-kit.register("symta", "symtb", "symtc", "symv", "symw")
+kit.register("symta", "symtb", "symtc", "symv", "symw", "symt")
 
 RECORDS = [r for r in csv.reader(io.StringIO(kitpaths.DATA))]
 ND = len(RECORDS)
@@ -109,7 +109,8 @@ def source_chain(kind: str, ta: int, tb: int, tc: int) -> str:
 
 # ------------------------------------------------------------------ O2 references
 DATA2 = "h1,h2,h3\na,b,c\nd,e\nf\ng,h,i\n"
-G = ['~id:a~ $[*][ @v = symv()  @d.k = symw()  yes() ]']
+G = ['~id:a~ $[*][ @v = symv()  @d.k = symw()  gt(line_number(), symt()) ]']
+RECORDS2 = [r for r in csv.reader(io.StringIO(DATA2))]
 R = ['~id:r~ $[1][ @x = $g.variables.v  @y = $g.variables.d.k  @z = $g.headers.h3 ]']
 R2 = ['~id:q~ $[*][ yes() ]']
 
@@ -120,8 +121,8 @@ R2 = ['~id:q~ $[*][ yes() ]']
     pre=["{LO} <= v1 <= {HI} and {LO} <= w1 <= {HI} and {LO} <= v2 <= {HI} and {LO} <= w2 <= {HI}"],
     post="_ == ''",
     bound="group g (1 member collecting a ragged 5-record file) run once or twice (symbolic) leaving symbolic ints in a plain and "
-    "a tracking-keyed variable; then a group that reads $g.variables.v, $g.variables.d.k and $g.headers.h3, and a group run on "
-    "the file name '$g.results.:last.a'",
+    "a tracking-keyed variable; then a group that reads $g.variables.v, $g.variables.d.k and $g.headers.h3, and groups run (serially and breadth-first, "
+    "before and after the second run of g, on the same instance) on the file name '$g.results.:last.a': always the most recent run's data.csv",
     outside="references to groups of several members; ':first'; 3 runs",
     encodes=["csvpath/matching/productions/reference.py:Reference._variable_value/_header_value/_get_value_from_results/get_results",
              "csvpath/managers/results/results_manager.py:ResultsManager.get_variables/data_file_for_reference/_find_instance", "csvpath/util/reference_parser.py:ReferenceParser"],
@@ -132,27 +133,39 @@ def references(twice: bool, v1: int, w1: int, v2: int, w2: int) -> str:
     with NoTracing():
         root, cs = kitpaths.env({"g": G, "r": R, "r2": R2}, policy="raise, collect, print", data=DATA2)
     problems = []
-    kit.HOLD.update(symv=v1, symw=w1)
+    kit.HOLD.update(symv=v1, symw=w1, symt=-1)
     cs.collect_paths(filename="data", pathsname="g")
-    lastv, lastw = v1, w1
+    lastv, lastw, lastt = v1, w1, -1
+    # replay the first run once, so that a later ':last' must be resolved afresh
+    cs.collect_paths(filename="$g.results.:last.a", pathsname="r2")
+    if kitpaths.result_lines(cs.results_manager.get_named_results("r2")[0]) != RECORDS2:
+        problems.append("first replay of $g.results.:last.a did not give the first run's lines")
     if twice:
-        kit.HOLD.update(symv=v2, symw=w2)
+        kit.HOLD.update(symv=v2, symw=w2, symt=1)
         cs.collect_paths(filename="data", pathsname="g")
-        lastv, lastw = v2, w2
+        lastv, lastw, lastt = v2, w2, 1
     cs.fast_forward_paths(filename="data", pathsname="r")
     rr = cs.results_manager.get_named_results("r")[0].csvpath.variables
     if rr.get("x") != lastv:
         problems.append(f"$g.variables.v gave {rr.get('x')}, the last run left {lastv}")
     if rr.get("y") != lastw:
         problems.append(f"$g.variables.d.k gave {rr.get('y')}, the last run left {lastw}")
-    if rr.get("z") != ["h3", "c", "i"]:
-        problems.append(f"$g.headers.h3 gave {rr.get('z')}")
+    want_z = ["h3", "c", "i"] if lastt < 0 else ["i"]
+    if rr.get("z") != want_z:
+        problems.append(f"$g.headers.h3 gave {rr.get('z')}, expected {want_z}")
+    want_lines = [r for i, r in enumerate(RECORDS2) if i > lastt]
+    got_serial = None
+    got_byline = [list(x) for x in cs.collect_by_line(filename="$g.results.:last.a", pathsname="r2")]
     cs.collect_paths(filename="$g.results.:last.a", pathsname="r2")
+    got_serial = kitpaths.result_lines(cs.results_manager.get_named_results("r2")[0])
     with NoTracing():
         runs = sorted(os.listdir("archive/g"))
         src = _csv(os.path.join("archive/g", runs[-1], "a", "data.csv"))
-        got = kitpaths.result_lines(cs.results_manager.get_named_results("r2")[0])
-        if got != src or len(src) != 5:
-            problems.append(f"replay of $g.results.:last.a gave {got}, the member's data.csv holds {src}")
+        if src != want_lines:
+            problems.append(f"the most recent run of g archived {src}, expected {want_lines}")
+        if got_serial != want_lines:
+            problems.append(f"serial replay of $g.results.:last.a gave {got_serial}, the most recent run collected {want_lines}")
+        if got_byline != want_lines:
+            problems.append(f"breadth-first replay of $g.results.:last.a gave {got_byline}, the most recent run collected {want_lines}")
         kitpaths.cleanup(root)
     return "; ".join(problems)
